@@ -19,7 +19,8 @@ for d in sorted(glob.glob(os.path.join(ROOT, "seeded", "*", "meta.json")), key=l
     rows.append(f"| {name} | {summ} | {needs} | **{res}** — {det} |")
 table = "| seed | change (written by an independent agent that saw only the property text) | needs | result of `./check <ID>` (quick, seed 1) on a scratch copy with the change |\n|---|---|---|---|\n" + "\n".join(rows)
 n = len(rows); missed = sum(1 for r in rows if "missed-then-caught" in r); never = sum(1 for r in rows if "**missed**" in r)
-head = f"{n} seeded changes; {n - missed - never} caught at first run, {missed} missed at first and caught after the check was strengthened, {never} still missed.\n\n"
+cross = sum(1 for r in rows if "**caught-by-C" in r)
+head = f"{n} seeded changes; {n - missed - never - cross} caught at first run by the check of the property they were written against, {cross} not seen by that check but caught at first run by the check of the property whose statement the change violates (result column `caught-by-Cnn`), {missed} missed at first and caught after the check was strengthened, {never} still missed.\n\n"
 p = os.path.join(ROOT, "DESIGN.md"); s = open(p).read()
 a, b = "<!-- SEED-TABLE-BEGIN -->", "<!-- SEED-TABLE-END -->"
 assert a in s and b in s
